@@ -231,6 +231,7 @@ func runC10(cfg config) *hx.Report {
 		for st := 0; st < steps; st++ {
 			r := rng.Intn(20)
 			frameAuthor := -1 // index of the client that wrote a frame in this step
+			framePid, frameTo := 0, -2 // routed envelope of this step: payload id, addressee (-1 = everybody else)
 			var errBefore []int
 			for _, c := range clients {
 				errBefore = append(errBefore, errCount(c))
@@ -304,6 +305,7 @@ func runC10(cfg config) *hx.Report {
 						to = fmt.Sprintf("(Some %d%%nat)", toPeer)
 					}
 					payloadInfo[nextPayload] = [3]int{c.sess, k + 1, toPeer}
+					framePid, frameTo = nextPayload, toPeer
 					b, _ := json.Marshal(env)
 					c.ws.conn.WriteMessage(websocket.TextMessage, b)
 					ops = append(ops, fmt.Sprintf("Serv.Frame %d (Serv.FEnv %d %s %s %d)", k+1, claimFrom, claim, to, nextPayload))
@@ -332,6 +334,40 @@ func runC10(cfg config) *hx.Report {
 			// whatever a frame provokes in the way of error reports (unknown addressee,
 			// invalid envelope) goes to the CONNECTION that wrote it and to nobody else -
 			// also when another connection carries the same peer id
+			// completeness: an addressed envelope reaches the named peer's current connection,
+			// an unaddressed one every other peer of the session (the current connection of
+			// each peer id other than the author's) - while the session lives
+			if frameAuthor >= 0 && framePid > 0 && !dead[clients[frameAuthor].sess] {
+				author := clients[frameAuthor]
+				current := map[int]int{} // peer id -> index of the most recent connection in the author's session
+				for j, c := range clients {
+					if c.sess == author.sess {
+						current[c.peer] = j
+					}
+				}
+				has := func(c *c10client) bool {
+					c.ws.mu.Lock()
+					defer c.ws.mu.Unlock()
+					for _, e := range c.ws.log {
+						if e.MsgID == fmt.Sprintf("m%d", framePid) {
+							return true
+						}
+					}
+					return false
+				}
+				for p, j := range current {
+					c := clients[j]
+					if !c.alive || j == frameAuthor {
+						continue
+					}
+					if frameTo >= 0 && p == frameTo && !has(c) {
+						rep.Violate("addressed-not-delivered", fmt.Sprintf("m%d addressed to %s by c%d was not delivered to c%d, the connected %s of s%d (after %q)", framePid, pname(p), frameAuthor+1, j+1, pname(p), c.sess, names[len(names)-1]), map[string]any{"script": names})
+					}
+					if frameTo == -1 && p != author.peer && !has(c) {
+						rep.Violate("broadcast-not-delivered", fmt.Sprintf("m%d broadcast by c%d (%s) was not delivered to c%d (%s) of the same session s%d", framePid, frameAuthor+1, pname(author.peer), j+1, pname(p), c.sess), map[string]any{"script": names})
+					}
+				}
+			}
 			if frameAuthor >= 0 {
 				for j, c := range clients {
 					if j >= len(errBefore) {
